@@ -2,8 +2,8 @@
 from . import common as C
 
 MANIFEST = dict(
-   technique="Lean 4 proof of the path laws over the container model with ABSTRACT members (per-container prefix law, composed by induction on nesting depth: resolution, single-fault locality, completeness) + differential correspondence on generated nestings with planted single faults",
-   text="Theorems: c05_paths_from_members (every issue a container reports is a container-level issue at a location of its own, or a member's issue with the member's location put in front — per container, all member environments), c05_path_resolves (by induction on nesting depth: every reported path resolves in the input or reaches the parent of a missing key, given that the leaves' paths do), c05_single_fault (if all asked members but those under one location accept, every path is that location or a prefix/extension inside it), c05_complete_patched with witnesses c05_slice_drops_child_path / c05_record_drops_key / c05_array_drops_child_path for today's code. The model is tied to /repo by the C02 nestings with planted single faults: the reported path set must equal the model's and be contained in the ideal complete paths; resolution and prefix-of-fault are also evaluated directly on the implementation's output.",
+   technique="Lean 4 proof of the path laws over the container model with ABSTRACT members (per-container prefix law, composed by induction on nesting depth: resolution, single-fault locality, completeness) + differential correspondence on generated nestings (members of every kind) with planted single faults and with k = 2,3 faults planted side by side at three levels, on random nestings and on every parent kind x child kind chain of depth >= 3",
+   text="Theorems: c05_paths_from_members (every issue a container reports is a container-level issue at a location of its own, or a member's issue with the member's location put in front — per container, all member environments), c05_path_resolves (by induction on nesting depth: every reported path resolves in the input or reaches the parent of a missing key, given that the leaves' paths do), c05_single_fault (if all asked members but those under one location accept, every path is that location or a prefix/extension inside it), c05_multi_fault (the same for any set of faulty locations, whatever the number of issues each faulty member reports), c05_tuple_all_issues / c05_struct_all_issues / c05_object_all_issues (ALL issues a member reports for one element / field appear, in order, each with the location put in front: none lost, none carrying a sibling's path), c05_nested_two_issues (object > tuple > object with two bad fields via parseF), c05_complete_patched with witnesses c05_slice_drops_child_path / c05_record_drops_key / c05_array_drops_child_path for today's code. The model is tied to /repo by the C02 nestings with planted faults (one, or 2-3 side by side: sibling members of the top container, sibling elements of one member, or inside ONE element of a member so that it reports >= 2 issues): the reported path set must equal the model's (predicted from the members' own answers) and be contained in the ideal complete paths; resolution, nearness to a planted location and coverage of the planted locations are also evaluated directly on the implementation's output.",
    note="Trusted: Lean kernel; axioms propext/Classical.choice/Quot.sound only; the Go harness (its path walker decides whether an int is an index or a key by walking the input), token codec and comparer. Each nesting level is judged against its own members' reported paths (the composed law is the Lean theorem). Hand-transcribed model validated on generated cases; same unmodelled representations as C02. array wraps a failing element in one invalid_element issue at [i] and drops the inner path: kept as known finding (the suite pins invalid_element).",
    design="DESIGN.md §5 C05; notes/C05.md")
 
@@ -11,6 +11,8 @@ MODULES = ["Gozod.Proofs.C05"]
 THEOREMS = ["Gozod.C05." + t for t in [
     "c05_paths_from_members", "c05_path_resolves", "c05_single_fault", "c05_complete_patched",
     "c05_slice_drops_child_path", "c05_record_drops_key", "c05_array_drops_child_path",
+    "c05_multi_fault", "tupleElems_block", "c05_tuple_all_issues", "structFields_block", "c05_struct_all_issues",
+    "objectFields_block", "c05_object_all_issues", "c05_nested_two_issues",
 ]]
 
 def parse_obs(s):
@@ -28,7 +30,7 @@ def reason(impl, spec):
     if iv not in ("ok", "err"): return iv.split(":")[0]
     if iv != sv: return None                      # verdict disagreement: C02's business
     if iv == "ok": return ""
-    if fl.get("p") == "0": return "path-outside-planted-fault"
+    if fl.get("p") == "0": return "path-outside-planted-fault"   # some path is not at / above / inside any planted location
     if fl.get("r") == "0": return "path-does-not-resolve"
     bad = ip - sp
     if not bad: return ""
@@ -69,8 +71,10 @@ def run(res):
     C.decide(res, "C05", (ops2, impl, model2, stats), key, "C05/paths", describe=describe)
     res.coverage["verdict_disagreements_and_panics_left_to_C02_C04"] = skipped
     res.coverage["rule"] = ("per container kind N random schemas (60 quick / 500 thorough) of nesting depth 1..4 (1..6); per schema 3 synthesised instances "
-        "that the implementation accepts; per instance up to 6 planted single faults at a random location of any depth (the value there is replaced by one its "
-        "own sub-schema rejects). distinct = distinct op lines. cfg = " + str(stats.get("cfg")))
+        "that the implementation accepts; per instance up to 5 planted single faults at a random location of any depth (the value there is replaced by one its "
+        "own sub-schema rejects) and 3 multi-fault inputs (k = 2..3 faults side by side at level 0 / 1 / 2 below the top container); plus every parent kind x child kind "
+        "(13 x 14, child over a bottom container with >= 2 children; x10 thorough), 2 instances each, k = 2,3 faults at each of the three levels. A record gets one faulty "
+        "entry at a time (it reports only the first rejected value in map order). distinct = distinct op lines. cfg = " + str(stats.get("cfg")))
     res.assumptions += [
         "each member's recorded ParseAny answer (issues with paths relative to the member's input) is what the container obtains when it asks the member",
         "the comparison is on the SET of paths (issue multiplicity and messages are not part of C05)",
